@@ -90,6 +90,31 @@ class Fragment:
             j += 1
         raise AnchorLost("%s: end of statement after %r not found" % (self.name, anchor))
 
+    def wrap_arm(self, pattern_anchor, proof_text, occ=1):
+        """Match arm `PATTERN => EXPR,` (anchor = pattern text incl. `=>`): EXPR becomes `{ proof_text EXPR }`; insertion only."""
+        m = self._find(pattern_anchor, occ)
+        toks = self._toks()
+        i = next((ix for ix, t in enumerate(toks) if t[1] >= m.end()), None)
+        if i is None:
+            raise AnchorLost("%s: arm body after %r not found" % (self.name, pattern_anchor))
+        start = toks[i][1]
+        j = i
+        end = None
+        while j < len(toks):
+            k, s_, e_ = toks[j]
+            ch = self.orig[s_:e_]
+            if k == "punct" and ch in "([{":
+                j = match_close(self.orig, toks, j) + 1
+                continue
+            if k == "punct" and ch in ",}":
+                end = toks[j - 1][2]
+                break
+            j += 1
+        if end is None:
+            raise AnchorLost("%s: end of arm after %r not found" % (self.name, pattern_anchor))
+        self.insert_at(start, "{ " + proof_text + " ")
+        return self.insert_at(end, " }")
+
     def replace_call(self, anchor, new, rule, occ=1, why=""):
         """Replace the expression that starts at `anchor` and ends with the `)` matching the first `(` at or after
         the end of the anchor (e.g. a method-call chain `a.b().c(|x| ..)` anchored at `a` with anchor ending in `.c`)."""
